@@ -285,3 +285,32 @@ def self_effects(p: Program, fn: FunctionInfo, depth: int = 3, _seen: set | None
             elif recv[0] == "attr" and recv[1][0] == "attr" and recv[1][1] == ("param", "self"):
                 out.setdefault(f"{recv[1][2]}.{recv[2]}", []).append(("call", ("const", name), (), ()))
     return out
+
+
+def holds_at(r, n, operand: Term) -> bool:
+    """`operand` is known to be truthy at node n: a dominating condition tested it (directly or negated, also as a conjunct)."""
+    for g, pol, gn in r.cfg.must_guards(n):
+        t = r.term(g, gn)
+        if _implies_truthy(t, pol, operand):
+            return True
+    return False
+
+
+def _implies_truthy(t: Term, pol: bool, operand: Term) -> bool:
+    if t == operand:
+        return pol
+    if t[0] == "unop" and t[1] == "not":
+        return _implies_falsy(t[2], pol, operand)
+    if t[0] == "bool" and t[1] == "and" and pol:
+        return any(_implies_truthy(x, True, operand) for x in t[2])
+    if t[0] == "bool" and t[1] == "or" and not pol:
+        return any(_implies_truthy(x, False, operand) for x in t[2])
+    if t[0] == "cmp" and len(t[2]) == 2 and operand in t[2] and ("const", True) in t[2] and t[1][0] in ("is", "=="):
+        return pol
+    return False
+
+
+def _implies_falsy(t: Term, pol: bool, operand: Term) -> bool:
+    """Condition t having truth value pol implies... (helper: `not t` has value pol) -> operand truthy?"""
+    # `not t` evaluates to pol  <=>  t evaluates to (not pol)
+    return _implies_truthy(t, not pol, operand)
